@@ -222,6 +222,27 @@ pub fn run(cfg: &RunCfg) -> PropRun {
     run.rule = "ranges from Range::parse of AST-rendered texts (all grammar forms incl. <=1 / <=1.2 with their MAX_SAFE_INTEGER uppers, -0 uppers, exact, one/two-sided, multi-alternative) and from intersect/difference expression trees of depth <= 3 over the adjacent-version pool. Oracle: to_string() must re-parse; at ~40 probes per bound satisfies() and bounds membership (allows_any(=v)) are unchanged and agree with what the printed text says; ranges from parse compare == after the round trip; the second print is a fixed point; serde JSON is the quoted print and deserialises to the same range. Non-trivial = >=2 alternatives, or a two-sided interval, or a tagged bound; distinct by printed text.".into();
     run.assumptions = vec!["printed bounds with a component above MAX_SAFE_INTEGER are the listed finding D11 (excluded, counted)".into()];
     known_probe(&mut run);
+    // every token of the single-token table and every structured interval / two-alternative union of the chain
+    let mut texts: Vec<String> = crate::props::c01::token_table()
+        .into_iter()
+        .map(|(op, p)| RangeAst::single(Alt::Simples { toks: vec![Tok::Cmp { op, blanks: 0, p }], seps: vec![] }).render())
+        .collect();
+    let ivs = crate::props::c09::structured_intervals();
+    for (i, a) in ivs.iter().enumerate() {
+        texts.push(a.clone());
+        for b in ivs.iter().skip(i % 5).step_by(5) {
+            texts.push(format!("{} || {}", a, b));
+        }
+    }
+    let tr = &texts;
+    let out = enumerate(
+        cfg,
+        "tables",
+        move |shard, nsh| (0..tr.len()).filter(move |i| i % nsh == shard).map(move |i| tr[i].clone()),
+        |t: &String, st| check_case(&Case::Text(t.clone()), st),
+    );
+    run.absorb(out);
+    run.stats.exhaustive_subspaces.push(json!({"name": "single-token table (3060 tokens) + structured intervals and two-alternative unions of the adjacent chain", "texts": texts.len()}));
     let out = campaign(cfg, ID, "ast", cfg.pick(200_000, 2_500_000), ast_strategy, check_case);
     run.absorb(out);
     let out = campaign(cfg, ID, "algebra", cfg.pick(200_000, 2_500_000), expr_strategy, check_case);
@@ -230,7 +251,12 @@ pub fn run(cfg: &RunCfg) -> PropRun {
     run
 }
 
-pub fn replay(_campaign: &str, case: &Value) -> Result<(), Failure> {
-    let c: Case = serde_json::from_value(case.clone()).map_err(|e| Failure::new("bad-replay", e.to_string()))?;
+pub fn replay(campaign: &str, case: &Value) -> Result<(), Failure> {
+    let bad = |e: serde_json::Error| Failure::new("bad-replay", e.to_string());
+    if campaign == "tables" {
+        let t: String = serde_json::from_value(case.clone()).map_err(bad)?;
+        return check_case(&Case::Text(t), &mut Stats::default());
+    }
+    let c: Case = serde_json::from_value(case.clone()).map_err(bad)?;
     check_case(&c, &mut Stats::default())
 }
